@@ -453,15 +453,25 @@ pub fn property() -> Property {
     let r = "Mat4::from(Transform) maps p to position + orientation*(scale . p) with the orientation from the angle regimes (small down to 2^-40 / 2^-14, next to multiples of pi/2, many turns, identity, negated quaternion), scale factors 1 +- 2^-e / +-2^j / ordinary, positions and points in units of 2^k or 2^-e of the unit; oracle: quaternion action in f64; tolerance 16 eps * (|position_i| + sum |scale_j p_j|); both layouts";
     tape!("transform-regimes-f64", r, 128, 16_000, 800_000, reg::transform_regimes::<f64>);
     tape!("transform-regimes-f32", r, 128, 16_000, 800_000, reg::transform_regimes::<f32>);
+    let w = "whole normal range of the element type (no builder ever needs the square of a parameter): one builder step (translated_2d/3d, scaled_3d/2d, sheared_x/y, rotated_x/y/z and the in-place twins) with parameters +-(1+u) 2^e, e from the exponent of MIN_POSITIVE up to where a single product of two entries stays finite (squares underflow to 0 / overflow in most cases), start-matrix entries likewise (identity, structured matrices times 2^b, rows at the exponent where the translation matters); entry-wise value = definition-matrix * start in f64, tolerance 16 eps * sum of |terms| + 16 subnormal quanta; Mat2/3/4, both layouts";
+    tape!("wide-steps-f64", w, 320, 12_000, 800_000, reg::wide_steps::<f64>);
+    tape!("wide-steps-f32", w, 320, 12_000, 800_000, reg::wide_steps::<f32>);
+    let wh = "mul_point / mul_direction (Vec3, Vec4) and mul_point_2d / mul_direction_2d (Vec2, Vec3) with matrix entries and coordinates anywhere in the normal range; oracle row . vector in f64, same tolerance";
+    tape!("wide-helpers-f64", wh, 320, 4_000, 300_000, reg::wide_helpers::<f64>);
+    tape!("wide-helpers-f32", wh, 320, 4_000, 300_000, reg::wide_helpers::<f32>);
+    let wt = "Mat4::from(Transform) entry by entry with position coordinates and scale factors anywhere in the normal range (each with its own exponent): last column = position, linear part = R(orientation) * diag(scale) with R from the quaternion action in f64, bottom row (0,0,0,1); both layouts";
+    tape!("wide-transform-f64", wt, 160, 8_000, 500_000, reg::wide_transform::<f64>);
+    tape!("wide-transform-f32", wt, 160, 8_000, 500_000, reg::wide_transform::<f32>);
     Property {
         id: "C07",
-        rule: "builder chains of 0-8 generated steps (arguments: small rationals / floats, registered angles, Pythagorean axes) starting from the identity or a random matrix; Transform with rational unit quaternion, mostly non-uniform scale; non-trivial = chain with >= 2 different kinds of step / non-uniform scale with a non-axis-aligned rotation / all parameters non-zero and pairwise different scales; regime checks (src/reg.rs): helpers-forms non-trivial = projective matrix (bottom row != 0,0,0,1) and >= 2 non-zero coordinates; arg-forms = a, b, c pairwise different and non-zero, ignored w != c; step-regimes = the step is not a no-op and the start matrix is not the identity; transform-regimes = non-zero rotation angle and a point with >= 2 non-zero coordinates; ctor-entries = pairwise different arguments; distinct = distinct consumed tape prefix",
+        rule: "builder chains of 0-8 generated steps (arguments: small rationals / floats, registered angles, Pythagorean axes) starting from the identity or a random matrix; Transform with rational unit quaternion, mostly non-uniform scale; non-trivial = chain with >= 2 different kinds of step / non-uniform scale with a non-axis-aligned rotation / all parameters non-zero and pairwise different scales; regime checks (src/reg.rs): helpers-forms non-trivial = projective matrix (bottom row != 0,0,0,1) and >= 2 non-zero coordinates; arg-forms = a, b, c pairwise different and non-zero, ignored w != c; step-regimes = the step is not a no-op and the start matrix is not the identity; transform-regimes = non-zero rotation angle and a point with >= 2 non-zero coordinates; ctor-entries = pairwise different arguments; wide-steps = the step is not a no-op; wide-helpers = >= 2 non-zero coordinates; wide-transform = non-zero position and rotation angle; distinct = distinct consumed tape prefix",
         assumptions: &[
             "rustc and the proptest runner/shrinker are trusted",
             "oracle: each step's action on a point written from its definition (translation adds, scaling multiplies per axis, shear adds k times the other coordinate, rotation by the axis-angle formula); its matrix is assembled from the images of the basis vectors",
             "float tolerance 1024*eps*(product of step magnitudes) in the chain / constructors / transform checks",
             "regime checks: tolerance k*eps*(sum of the magnitudes of the terms of that very component), never max(1, .): k = 16 for one row . vector or one builder step (<= 4 roundings in vek, the same in the oracle, constructor entries exact or one rounding of sin/cos), 32 for a rotation about a general axis (its entries are sums of terms <= 1 known to a few eps absolutely, so the 3x3 block is bounded by max(|entry|, 1)), 16 for the Transform map relative to |position_i| + sum_j |scale_j p_j| (any implementation of orientation*(scale . p) has an error relative to |scale . p|, not to the rotational displacement; so a dropped rotation of angle a is visible down to a ~ 100 eps: angles are drawn down to 2^-40 in f64 and 2^-14 in f32)",
             "regimes are kept inside the range where no correct implementation overflows or underflows: unit of length 2^k with |k| <= 24 (f32, Rat) / 200 (f64) (half of that for Transform, whose scale factors reach 2^(+-12) / 2^(+-100)); rotation-axis lengths 2^(+-12) / 2^(+-100) times a Pythagorean vector so that the squared length stays normal; angles up to 2^9 (f32) / 2^17 (f64) radians, where the oracle takes sin / cos of the same argument in the same type",
+            "whole-normal-range checks (wide-*): translation components, scale factors, shears, angles, point coordinates and start-matrix entries are +-(1+u) 2^e with e from the exponent of MIN_POSITIVE up to the largest exponent minus 10 (4 for Transform fields), constrained only so that every single product of a constructor entry and a start entry, and every sum of <= 4 of them, stays finite; squares of the parameters underflow to 0 or overflow in most cases, which is irrelevant because no builder needs them; tolerance 16 eps * (sum of |terms|) + 16 subnormal quanta (an underflowing product or partial sum costs at most half a quantum, <= 5 of them in vek and in the f64 oracle together); rotations about a general axis are excluded there (normalising the axis does square it) and so are overflowing products",
             "Transform orientations are unit quaternions to rounding (cos(a/2), sin(a/2)*axis computed in f64 and rounded to the type; also the negated quaternion and +-identity); non-normalised orientations are outside the documented domain of Mat4::from(Quaternion) and are not generated",
             "argument forms: the vector an argument converts to is written down from the documented conversions (Vec2 -> z = 0, Vec4 -> w dropped, scalar -> broadcast, tuples / arrays / Extent / Rgb component-wise); builders with a converted argument must equal the Vec3 / Vec2 call bit for bit (same code after the conversion)",
             "ctor-entries: finite values only (subnormals, MIN_POSITIVE, MAX, EPSILON, 1 +- eps, -0 compared with ==, +-2^j over the whole normal range); infinities and NaN are not asserted (the property is silent there)",
